@@ -174,7 +174,25 @@ func (w *World) checkSyncs() {
 		return
 	}
 	for _, n := range w.nodes {
-		if n.byz || !n.alive || n.lh == nil || n.shuttingDown || !n.settled() {
+		if n.byz || !n.alive || n.lh == nil || n.shuttingDown {
+			continue
+		}
+		// "even while the worker is inside a long SPI call": once UpdateState(b) has returned nil, no SPI call of a
+		// height <= b may still be waiting on a live context - it would keep the worker from ever reaching the sync
+		for _, g := range n.gates {
+			if g.ignoresCtx || g.ctx == nil || g.ctx.Err() != nil {
+				continue
+			}
+			for i := range n.updates {
+				u := &n.updates[i]
+				if u.returned && u.err == nil && u.b >= u.hAtCall && u.b >= g.height {
+					w.violate("C14", "sync-stalled-behind-spi-call", "n%d: UpdateState(block h%d) returned nil while the node decided h%d, and its worker is still inside a %s call of h%d whose context is alive: the sync cannot take effect", n.idx, u.b, u.hAtCall, g.kind, g.height)
+					return
+				}
+			}
+			w.probe("spi-call-checked-against-syncs")
+		}
+		if !n.settled() {
 			continue
 		}
 		h := n.height()
